@@ -6,8 +6,9 @@
 @fn Exp::linearize @attr
 #[verifier::exec_allows_no_decreases_clause]
 @fn Exp::linearize -> res
-    requires exp_fin(*self),
+    requires exp_fin(*self), lz_inv(*old(linearizer_context)),
     ensures
+        lz_inv(*final(linearizer_context)),
         lz_ext(*old(linearizer_context), *final(linearizer_context)),
         res matches Ok(lc) ==> lc_fin(lc),
         res matches Ok(lc) ==> forall|env: Env| #[trigger] lz_ok(*final(linearizer_context), env) ==>
@@ -37,11 +38,10 @@
     }
 @fn Exp::linearize @tail 6
     proof {
-        assert(1real / rv(*divisor) != 0real) by (nonlinear_arith) requires rv(*divisor) != 0real;
         assert forall|env: Env| #[trigger] sem(*self, env) is Some implies sem(*self->BinOp_2, env) == Some(rv(*divisor)) by {}
     }
 @fn Exp::linearize @entry
-    proof { reveal_with_fuel(exp_fin, 2); lemma_real_arith(); }
+    proof { lemma_exp_fin(*self); lemma_exp_fin(*self->BinOp_1); lemma_exp_fin(*self->BinOp_2); lemma_real_arith(); }
 @raw
 // pure real-arithmetic facts used by the arms (no hypothesis about the code)
 pub proof fn lemma_real_arith()
@@ -50,12 +50,15 @@ pub proof fn lemma_real_arith()
         forall|x: real| #[trigger] rmul_s(x, 0real) == 0real,
         forall|x: real| #[trigger] rmul_s(-1real, x) == -x,
         forall|x: real| #[trigger] rmul_s(1real, x) == x,
-        forall|x: real, d: real| d != 0real ==> #[trigger] rmul_s(1real / d, x) == rdiv_s(x, d),
+        forall|x: real, d: real| d != 0real ==> #[trigger] rmul_s(rdiv_s(1real, d), x) == rdiv_s(x, d),
+        forall|d: real| d != 0real ==> #[trigger] rdiv_s(1real, d) != 0real,
 {
+    reveal(rmul_s); reveal(rdiv_s);
     assert forall|x: real| #[trigger] rmul_s(0real, x) == 0real by { assert(0real * x == 0real) by (nonlinear_arith); }
     assert forall|x: real| #[trigger] rmul_s(x, 0real) == 0real by { assert(x * 0real == 0real) by (nonlinear_arith); }
     assert forall|x: real| #[trigger] rmul_s(-1real, x) == -x by { assert((-1real) * x == -x) by (nonlinear_arith); }
     assert forall|x: real| #[trigger] rmul_s(1real, x) == x by { assert(1real * x == x) by (nonlinear_arith); }
-    assert forall|x: real, d: real| d != 0real implies #[trigger] rmul_s(1real / d, x) == rdiv_s(x, d) by { assert((1real / d) * x == x / d) by (nonlinear_arith) requires d != 0real; }
+    assert forall|x: real, d: real| d != 0real implies #[trigger] rmul_s(rdiv_s(1real, d), x) == rdiv_s(x, d) by { assert((1real / d) * x == x / d) by (nonlinear_arith) requires d != 0real; }
+    assert forall|d: real| d != 0real implies #[trigger] rdiv_s(1real, d) != 0real by { assert(1real / d != 0real) by (nonlinear_arith) requires d != 0real; }
 }
-pub proof fn lemma_mul_comm(x: real, y: real) ensures rmul_s(x, y) == rmul_s(y, x) { assert(x * y == y * x) by (nonlinear_arith); }
+pub proof fn lemma_mul_comm(x: real, y: real) ensures rmul_s(x, y) == rmul_s(y, x) { reveal(rmul_s); reveal(rdiv_s); assert(x * y == y * x) by (nonlinear_arith); }
